@@ -748,7 +748,7 @@ func runCheck(mode string, args []string) {
 	exploreS := time.Since(t0).Seconds()
 
 	// ---- summarise exploration
-	nPaths, nOK, nUnsup, nUnwind, nPanic, nDead, nAbort, nDecis := 0, 0, 0, 0, 0, 0, 0, 0
+	nPaths, nOK, nUnsup, nUnwind, nPanic, nDead, nAbort, nDecis, nDeadlock := 0, 0, 0, 0, 0, 0, 0, 0, 0
 	for _, r := range st.results {
 		nPaths++
 		nDecis += r.Decis
@@ -759,6 +759,8 @@ func runCheck(mode string, args []string) {
 			nUnsup++
 		case "UNWIND":
 			nUnwind++
+		case "DEADLOCK":
+			nDeadlock++
 		case "PANIC":
 			nPanic++
 		case "DEAD":
@@ -901,6 +903,17 @@ func runCheck(mode string, args []string) {
 							mismatchNotes = append(mismatchNotes, fmt.Sprintf("%s inputs=%v: %s", p.vec.Entry, p.vec.Inputs, note))
 						}
 					}
+				} else if p.ce.Kind == "deadlock" || p.ce.Kind == "leak" {
+					why, ok, err := confirmBySchedule(targets[tn], ov, p.ce, p.vec)
+					if err != nil {
+						fmt.Printf("  WARNING: schedule replay unavailable for %s: %v\n", p.ce.Entry, err)
+						spurious++
+					} else if ok {
+						confirmed[p.ce] = why
+					} else {
+						spurious++
+						fmt.Printf("  WARNING: %s not reproduced natively with pauses at %v: %s\n", p.ce.Kind, p.ce.Pauses, trunc(why, 300))
+					}
 				} else if p.ce.Kind == "sharedwrite" {
 					why, ok, err := rp.runRace(targets[tn], p.vec)
 					if err != nil {
@@ -1033,7 +1046,8 @@ func runCheck(mode string, args []string) {
 	wall := time.Since(t0).Seconds()
 	ev := evidence{PropertyID: *prop, Tier: *tier, Seed: seed, Level: "model_checking", WallS: wall, Violations: violations,
 		Coverage: map[string]interface{}{
-			"states":                        max(nOK+nPanic, 0),
+			"states":                        max(nOK+nPanic+nDeadlock, 0),
+			"paths_deadlock":                nDeadlock,
 			"transitions":                   nDecis,
 			"traces_validated_against_impl": matched,
 			"samples":                       samples,
@@ -1330,4 +1344,74 @@ func runReplayCmd(args []string) {
 		os.Exit(1)
 	}
 	fmt.Println("not reproduced")
+}
+
+// confirmBySchedule replays a schedule counterexample natively: the source files of the preemption points get a
+// pause inserted before the statement at which the goroutine was preempted (build overlay, /repo is untouched); the
+// harness entry then runs under a watchdog. A run that does not finish (or ends in a fatal error) confirms it.
+func confirmBySchedule(tp targetPkg, ov map[string][]byte, ce *CounterExample, vec replayVector) (string, bool, error) {
+	if len(ce.Pauses) == 0 {
+		return "", false, fmt.Errorf("no preemption recorded on the schedule (the blocking does not depend on one)")
+	}
+	ov2 := map[string][]byte{}
+	for k, v := range ov {
+		ov2[k] = v
+	}
+	byFile := map[string][]PausePoint{}
+	for _, pp := range ce.Pauses {
+		switch pp.Kind {
+		case "lock", "rlock", "encode", "decode", "send", "recv", "select", "wg.Wait", "verifYield":
+			byFile[pp.File] = append(byFile[pp.File], pp)
+		default:
+			return "", false, fmt.Errorf("preemption after %q at %s:%d cannot be expressed as a pause before a statement", pp.Kind, pp.File, pp.Line)
+		}
+	}
+	for file, pps := range byFile {
+		src, ok := ov2[file]
+		if !ok {
+			b, err := os.ReadFile(file)
+			if err != nil {
+				return "", false, err
+			}
+			src = b
+		}
+		lines := strings.Split(string(src), "\n")
+		sort.Slice(pps, func(i, j int) bool { return pps[i].Line > pps[j].Line })
+		last := -1
+		for _, pp := range pps {
+			if pp.Line == last || pp.Line < 1 || pp.Line > len(lines) {
+				continue
+			}
+			last = pp.Line
+			lines = append(lines[:pp.Line-1], append([]string{"verifPauseTime.Sleep(400 * verifPauseTime.Millisecond) // verif: preemption point"}, lines[pp.Line-1:]...)...)
+		}
+		// alias import right after the package clause
+		for i, l := range lines {
+			if strings.HasPrefix(l, "package ") {
+				lines = append(lines[:i+1], append([]string{"import verifPauseTime \"time\""}, lines[i+1:]...)...)
+				break
+			}
+		}
+		ov2[file] = []byte(strings.Join(lines, "\n"))
+	}
+	rp := newReplayer(ov2)
+	defer rp.cleanup()
+	if err := rp.build(tp); err != nil {
+		return "", false, err
+	}
+	vec.Repeat = 1
+	outs, tail, err := rp.runBatch(tp, []replayVector{vec}, 20*time.Second)
+	if err != nil {
+		if strings.Contains(tail, "test timed out") || strings.Contains(tail, "all goroutines are asleep") {
+			return "native run with pauses at the preemption points does not finish: " + lastLines(tail, 6), true, nil
+		}
+		if strings.Contains(tail, "fatal error") || strings.Contains(tail, "panic:") {
+			return "native run with pauses dies: " + lastLines(tail, 6), true, nil
+		}
+		return "native run failed: " + lastLines(tail, 6), false, nil
+	}
+	if len(outs) == 1 && outs[0].Panic != "" {
+		return "native run with pauses panics: " + outs[0].Panic, true, nil
+	}
+	return "native run with pauses completes normally", false, nil
 }
